@@ -203,7 +203,7 @@ def bodyD (d : Desc) (T id : Nat) : P :=
     | some o => fromPrim d T i o.kind
     | none => errP "E"
 
-def toDoc (d : Desc) : Doc Val String := ⟨bodyD d, decodeD d, "E"⟩
+def toDoc (d : Desc) : Doc Val String := ⟨bodyD d, rawP d, decodeD d, "E"⟩
 
 /-! ### the call kinds -/
 
